@@ -49,11 +49,57 @@ def run_spec(spec: dict) -> list[dict]:
     info = ""
     tree = None
     try:
+        if spec.get("second_tree"):
+            # the very same TreeConfig object (levels, conditions, mechanism, options dict) has already served a tree that
+            # ran with the hibernation option flipped; the tree under observation is the second one built from it
+            cfg.options["hibernation"] = not bool(spec.get("hibernation", False))
+            first = DemeTree(cfg)
+            rec.tree = first
+            try:
+                first.run()               # (to its end: stateful conditions have seen a whole run)
+            except TooManyConsults:
+                pass
+            cfg.options["hibernation"] = bool(spec.get("hibernation", False))
+            if spec.get("zoom"):
+                # a zoom-in loop: the caller shrinks the box IN PLACE (the problems keep the array by reference) before
+                # the next tree is built on it
+                w = rec.bounds[:, 1] - rec.bounds[:, 0]
+                rec.bounds[:, 0] += 0.3 * w
+                rec.bounds[:, 1] -= 0.2 * w
+            rec.reset_for_new_tree()
         tree = DemeTree(cfg)
         rec.tree = tree
+        if spec.get("rival_tree"):
+            # another tree of the process registers OTHER deme classes for the same user configuration classes; it is
+            # constructed after ours and never run
+            from pyhms.config import TreeConfig as _TC
+            from .configs import CustomDemeB, CustomLevelConfig, DocStyleConfig, DocStyleDemeB
+            rcfg, rrec = build(dict(spec, name="rival", seed=int(spec.get("seed", 1)) + 31))
+            rival = DemeTree(_TC(rcfg.levels, rcfg.gsc, rcfg.sprout_mechanism, options=rcfg.options,
+                                 config_class_to_deme_class={CustomLevelConfig: CustomDemeB, DocStyleConfig: DocStyleDemeB}))
+            rrec.tree = rival
         rec.emit({"e": "start", "cfg": cfg_summary(spec), "snap": rec.snap(tree, full=True)})
         drive = spec.get("drive") or ["run"]
-        if drive[0] == "run":
+        if drive[0] == "interleaved":
+            # a second tree (short-lived children, another seed) shares the sprout mechanism object with ours and is
+            # stepped alternately with it
+            other_spec = {k: v for k, v in spec.items() if k not in ("reports", "dump_at", "look", "drive", "reuse_mechanism")}
+            other_spec = json.loads(json.dumps(other_spec))
+            other_spec.update(seed=int(spec.get("seed", 1)) + 4243, gsc={"kind": "MetaepochLimit", "n": 10 ** 6}, max_consults=10 ** 6, name="other")
+            for lv in other_spec["levels"][1:]:
+                if lv["engine"] != "LOCAL":
+                    lv["lsc"] = {"kind": "MetaepochLimit", "n": 1}
+            ocfg, orec = build(other_spec)
+            ocfg.sprout_mechanism.inner = cfg.sprout_mechanism.inner
+            other = DemeTree(ocfg)
+            orec.tree = other
+
+            def run(t, o):          # (named like DemeTree.run: its consults are loop-head consults)
+                while not t._gsc(t):
+                    o.run_step()
+                    t.run_step()
+            run(tree, other)
+        elif drive[0] == "run":
             tree.run()
         elif drive[0] == "steps":            # the caller steps the tree itself and never asks the global condition
             for _ in range(int(drive[1])):
